@@ -9,10 +9,42 @@ TB = ("Trusted: Coq 8.16.1 kernel (coqc; coqchk -o in the thorough tier), no nat
       "not verified.  See DESIGN.md section 3.")
 
 CHECKS = {
+    "C12": ("Theorems for every string of code points and every configuration (all integer thresholds): whole-sequence verdict = "
+            "documented window predicate; last-window verdict = verdict of the final window; for window-decidable configurations "
+            "and strings at least one window long the verdict is the conjunction over all windows; reverse-complement invariance "
+            "(ACGT motifs); constructor validation.  The float thresholds are reduced to integers outside Coq (same binary64 "
+            "products) and re-derived exactly with Fractions by the oracle.",
+            "Coq proof (substring / window lemmas) + extraction-based correspondence", "5 C12"),
     "C13": ("Theorems for every k >= 1 and every vertex (index<->k-mer bijection, successor/predecessor arithmetic = "
             "shift-append on k-mers, column layout, legality of built graphs), kernel-checked; tied to dsw by running the "
             "extracted model and the implementation on every vertex of every order up to 5 (7 thorough) plus samples to k = 12.",
             "Coq proof (induction on k-mers, Z arithmetic) + extraction-based correspondence check", "5 C13"),
+    "C01": ("Theorems: on every accessor that is well formed from the start vertex (any arc subset, out-degrees 1..4 mixed), for "
+            "every 0/1 message (empty, all-zero, any length), every permutation table and every check length, encode returns "
+            "within L x |V| steps and decode of its output returns the message (normal mode); the same in fast mode without "
+            "out-degree 3; plus: whenever encode returns at all, decode inverts it.  Tied to dsw.encode/decode by the "
+            "correspondence check (composite encode+decode call) on generated graphs, arc subsets, tables, checks, both modes.",
+            "Coq proof (refinement of the decimal-string coder to a mixed-radix reference, termination by pigeonhole) + "
+            "extraction-based correspondence", "5 C01"),
+    "C03": ("Theorems for every order k >= 1, every 0/1 mask and thresholds 1..4: connect_coding_graph returns the vertex-induced "
+            "sub-graph on the LARGEST closed subset of the mask (greatest fixed point; for t = 1 incl. reachability of a branching "
+            "vertex, proved through the cascade invariant), the vertex description denotes exactly the vertices with arcs, and "
+            "ValueError is raised exactly when every closed subset is empty; monotonicity and uniqueness follow.  The equality "
+            "with the latter-map trimming for t >= 2 is checked by correspondence + oracle, not proved.  Tied to dsw by the "
+            "correspondence check incl. (thorough) all 65536 order-2 masks x 4 thresholds.",
+            "Coq proof (greatest fixed point of a monotone deflationary operator; cascade invariant) + extraction-based correspondence", "5 C03"),
+    "C04": ("Theorems: every graph returned by graph generation is well formed from every retained vertex; encoding from there is "
+            "total within L x |V| steps (pigeonhole on out-degree-1 runs), never meets a dead end, emits a walk; tightness "
+            "(last step information carrying, product of earlier out-degrees <= message value), L / ceil(L/2) length bounds, fast "
+            "mode carries L or L+1 bits.  Tied to dsw by the correspondence check with a row-read-counting ndarray proxy "
+            "(reads = 2 x strand length) on graphs produced by the implementation's own generator.",
+            "Coq proof + extraction-based correspondence with read counting", "5 C04"),
+    "C05": ("Theorems: the code's normal-mode encoder (decimal strings, argsort) equals an integer reference coder written from the "
+            "published scheme (error cases included); the reference emits a walk whose little-endian mixed-radix value is the "
+            "message; digit d selects the d-th live arc / the live arc with the d-th smallest table entry (bijection); fast mode "
+            "equals its reference; decoding ANY walk returns its value big-endian at the requested width.  Tied to dsw by the "
+            "correspondence check and an independent Python reference coder.",
+            "Coq proof (refinement to a reference coder over Z) + extraction-based correspondence", "5 C05"),
     "C06": ("Theorem (both modes): for every accessor of four-column rows with in-range entries, every start vertex, every "
             "string of arbitrary code points, every table of the right shape and every optional check, decode returns exactly "
             "L bits iff the string is a walk and the check matches, and raises ValueError otherwise (fast mode: under the "
